@@ -432,6 +432,29 @@ func checkBulkOps(p *Program, r *Report, prop string) {
 	}
 	r.Floor("R02.2", "Contiguous implementations", nC, 9)
 
+	// ---- R02.2b: the fields the predicate reads are maintained with consistent units
+	{
+		ua := &unitAnalysis{p: p}
+		for _, fn := range dataFuncs(p) {
+			ua.analyseRoot(fn)
+		}
+		ord := map[string]int{}
+		n := 0
+		for _, s := range ua.sinks {
+			if s.field != "Step" && s.field != "Offset" {
+				continue
+			}
+			base := FuncKey(s.fn) + ":" + s.field
+			ord[base]++
+			n++
+			if s.got.kind == 0 || (s.got.kind == 1 && s.got.eq(s.want)) {
+				r.OK("R02.2", fmt.Sprintf("%s: %s keeps unit %s (read by Contiguous)", FuncKey(s.fn), s.what, s.want))
+			} else {
+				r.Fail("R02.2", fmt.Sprintf("%s#%d", base, ord[base]), p.Pos(s.pos), fmt.Sprintf("%s has unit %s instead of %s: Contiguous() reads this field, so a nested view can report itself contiguous although its elements are not adjacent (every fast path then touches the wrong cells)", s.what, s.got, s.want))
+			}
+		}
+		r.Floor("R02.2", "Step/Offset stores", n, 40)
+	}
 	// ---- R02.6
 	checkArgmax(p, r)
 }
